@@ -26,33 +26,9 @@ func init() {
 
 func runC17(c *an.Ctx) {
 	p := c.P
-	// ---- server list writers ----
-	n := 0
-	var post *ssa.Function
-	for _, fn := range p.FuncsIn("server") {
-		fi := p.Info(fn)
-		for _, a := range p.AccessesOf(fn) {
-			if !a.Write {
-				continue
-			}
-			cs := a.Cls.String()
-			if !strings.HasPrefix(cs, "T:GCAServer.gcaServers.servers") && !strings.HasPrefix(cs, "T:AuthorizedServers.servers") {
-				continue
-			}
-			st, isStore := a.Instr.(*ssa.Store)
-			if !isStore {
-				continue // the append builtin itself is reported at the store of its result
-			}
-			n++
-			if post == nil {
-				post = fn
-			}
-			c.Check(fn == post, "WHO-MAY", fn, st.Pos(), an.KeyOf(fn, "list-write:"+cs), "the authorized-server list is written only by the POST handler", "writer "+an.FuncName(fn))
-			serverListStore(c, fn, fi, st, a.Cls)
-		}
-	}
-	c.Count("WHO-MAY", n)
-	c.Floor("WHO-MAY", 2)
+	signingCoverage(c, "COVER", "server", "AuthorizedServer", "GCAAuthorization")
+	signingCoverage(c, "COVER", "server", "EquipmentMigration", "Signature")
+	post := serverListAuth(c)
 	if post != nil {
 		c.Scope(post)
 		// after a key match the handler never reaches the append
@@ -95,6 +71,44 @@ func runC17(c *an.Ctx) {
 	}
 	migrationStore(c)
 	clientAdoption(c)
+	// premises owned by C10 and C11, re-run: the parser accepts only authentic replies for the device's own key,
+	// and every change of the client's server map is merged monotonically and written to disk before the lock is released
+	parserAcceptance(c)
+	clientMergeRule(c)
+}
+
+// serverListAuth: every write of the authorized-server list happens in the one
+// POST handler and under a GCA signature on the very entry that is written.
+func serverListAuth(c *an.Ctx) *ssa.Function {
+	p := c.P
+	// ---- server list writers ----
+	n := 0
+	var post *ssa.Function
+	for _, fn := range p.FuncsIn("server") {
+		fi := p.Info(fn)
+		for _, a := range p.AccessesOf(fn) {
+			if !a.Write {
+				continue
+			}
+			cs := a.Cls.String()
+			if !strings.HasPrefix(cs, "T:GCAServer.gcaServers.servers") && !strings.HasPrefix(cs, "T:AuthorizedServers.servers") {
+				continue
+			}
+			st, isStore := a.Instr.(*ssa.Store)
+			if !isStore {
+				continue // the append builtin itself is reported at the store of its result
+			}
+			n++
+			if post == nil {
+				post = fn
+			}
+			c.Check(fn == post, "WHO-MAY", fn, st.Pos(), an.KeyOf(fn, "list-write:"+cs), "the authorized-server list is written only by the POST handler", "writer "+an.FuncName(fn))
+			serverListStore(c, fn, fi, st, a.Cls)
+		}
+	}
+	c.Count("WHO-MAY", n)
+	c.Floor("WHO-MAY", 2)
+	return post
 }
 
 func reachable(from, to *ssa.BasicBlock) bool {
